@@ -107,6 +107,7 @@ var statMaxNs, statMaxAlloc, statMaxAllocInput, statMaxNsInput int64
 
 // cumulative allocation per input octet, over inputs longer than 4 KiB (the linear clause of C14's memory bound)
 var statMaxAllocPerOctet, statMaxAllocPerOctetInput int64
+var statMaxNsPerOctet, statMaxNsPerOctetInput int64
 
 func measured(inputLen int, f func() error) error {
 	var m0, m1 runtime.MemStats
@@ -116,8 +117,13 @@ func measured(inputLen int, f func() error) error {
 	d := time.Since(t0).Nanoseconds()
 	runtime.ReadMemStats(&m1)
 	alloc := int64(m1.TotalAlloc - m0.TotalAlloc)
-	if d > statMaxNs {
-		statMaxNs, statMaxNsInput = d, int64(inputLen)
+	// wall time: absolute for inputs of at most 4 KiB, per octet for longer ones (a message of 65 535 IEs takes its time honestly)
+	if inputLen <= 4096 {
+		if d > statMaxNs {
+			statMaxNs, statMaxNsInput = d, int64(inputLen)
+		}
+	} else if r := d / int64(inputLen); r > statMaxNsPerOctet {
+		statMaxNsPerOctet, statMaxNsPerOctetInput = r, int64(inputLen)
 	}
 	// TotalAlloc is CUMULATIVE allocation (garbage included), an upper bound of the memory in use. For a short input it must stay
 	// small whatever the counts and lengths inside claim (decode_max_alloc_bytes, inputs of at most 4 KiB); for a long input it
@@ -142,6 +148,7 @@ func init() {
 			"decode_max_ns " + i(statMaxNs) + " input_len " + i(statMaxNsInput),
 			"decode_max_alloc_bytes " + i(statMaxAlloc) + " input_len " + i(statMaxAllocInput),
 			"decode_max_alloc_per_octet " + i(statMaxAllocPerOctet) + " input_len " + i(statMaxAllocPerOctetInput),
+			"decode_max_ns_per_octet " + i(statMaxNsPerOctet) + " input_len " + i(statMaxNsPerOctetInput),
 		}
 	})
 }
